@@ -171,6 +171,15 @@ func (m *machine) registerIntrinsics() {
 		}
 		return nil
 	}
+	in[vs+"FaultAtAnyStep"] = func(fr *frame, fn *ssa.Function, args []value) value {
+		fr.i.faultFn = args[0]
+		fr.i.everExplored = true
+		return nil
+	}
+	in[vs+"FaultDisarm"] = func(fr *frame, fn *ssa.Function, args []value) value {
+		fr.i.faultFn = nil
+		return nil
+	}
 	in[vs+"Dir"] = func(fr *frame, fn *ssa.Function, args []value) value { return args[0] }
 	in[vs+"Hash"] = func(fr *frame, fn *ssa.Function, args []value) value {
 		return fr.i.contentToken(args[0])
